@@ -54,7 +54,7 @@ Proof. intros rt E noop_leaf orders Ho Hn T fuel x Hd. exact (api_m_sound rt E n
 Definition exE : env := fun n => match n with
   | 0 => Some (NClass {| cflavour := FDataclass;
                           cfields := [ {| fname := 0; fty := TSeq KList (TName 0); fdefault := None |};
-                                       {| fname := 1; fty := TUnion [TLeaf 0; TNone]; fdefault := None |} ] |})
+                                       {| fname := 1; fty := TUnion [TLeaf 0; TNone]; fdefault := None |} ]; crequired := [] |})
   | _ => None end.
 Definition exOrder : list node :=
   [ {| ntype := TSeq KList (TName 0); nunw := TSeq KList (TName 0); ncyc := true |};
